@@ -9,6 +9,7 @@ package main
 
 import (
 	"context"
+	"flag"
 	"fmt"
 	"math/rand"
 	"sync"
@@ -19,6 +20,11 @@ import (
 )
 
 const slack = 3 * time.Second
+
+// -proto hsmsss|secs1: which transport sits under the shared engine
+var proto = flag.String("proto", "hsmsss", "hsmsss|secs1")
+
+func s1() bool { return *proto == "secs1" }
 
 type S struct {
 	c    *vh.Ctx
@@ -40,6 +46,10 @@ func (s *S) must(ok bool, what string) bool {
 }
 
 func newS(c *vh.Ctx, name string, o genx.Options, onGen func(p *genx.Peer)) *S {
+	if s1() {
+		o.Secs1, o.Retry, o.T2 = true, 1, 30*time.Millisecond
+		name = "s1-" + name
+	}
 	e, err := genx.NewEnv(o)
 	if err != nil {
 		panic(err)
@@ -143,6 +153,7 @@ func (s *S) inject(k cause, g int) {
 		_ = p.WriteRaw([]byte{0, 0, 0, 20, 0, 7}) // a frame prefix, then silence: T8 expires
 	case cWriteTimeout:
 		// the peer stops reading; one W-clear send then blocks in its write until the write deadline
+		// (SECS-I: the peer never grants the line; the send fails after T2 x (retry+1))
 		p.StopRead.Store(true)
 		s.e.Start(genx.KSyncNW, context.Background())
 	}
@@ -180,12 +191,19 @@ func awaitReply(c *vh.Ctx, k cause, n int) {
 	for i := 0; i < n; i++ {
 		cs = append(cs, s.e.Start(genx.KSyncW, context.Background()))
 	}
-	p0 := s.e.Peer(0)
 	dl := time.Now().Add(5 * time.Second)
-	for p0.DataRecv.Load() < int64(n) && time.Now().Before(dl) {
+	all := func() bool {
+		for _, cl := range cs {
+			if !cl.OnWire() {
+				return false
+			}
+		}
+		return true
+	}
+	for !all() && time.Now().Before(dl) {
 		time.Sleep(200 * time.Microsecond)
 	}
-	s.must(p0.DataRecv.Load() == int64(n), "all primaries on the wire")
+	s.must(all(), "all primaries on the wire")
 	time.Sleep(time.Millisecond)
 	s.inject(k, 0)
 	for _, cl := range cs {
@@ -393,9 +411,8 @@ func modelEq(c *vh.Ctx) {
 				cl := s.e.Start(k, context.Background())
 				cl.Wait(5 * time.Second)
 				if k == genx.KAsync {
-					p := s.e.Peer(0)
 					dl := time.Now().Add(5 * time.Second)
-					for p.DataRecv.Load() < 3 && time.Now().Before(dl) {
+					for !cl.OnWire() && time.Now().Before(dl) {
 						time.Sleep(200 * time.Microsecond)
 					}
 				}
@@ -451,9 +468,13 @@ func main() {
 	if c.Tier == "thorough" {
 		reps = 5
 	}
+	causes := []cause{cPeerClose, cClose, cLinktest, cT8, cWriteTimeout}
+	if s1() {
+		causes = []cause{cPeerClose, cClose, cWriteTimeout} // SECS-I has no linktest and no T8
+	}
 	modelEq(c)
 	for rep := 0; rep < reps; rep++ {
-		for k := cause(0); k < nCauses; k++ {
+		for _, k := range causes {
 			awaitReply(c, k, 1+r.Intn(4))
 			// a sender parked under the write lock also blocks the linktest probe (it shares the send
 			// path), and nothing is being written for a write deadline to hit: those two causes
@@ -466,7 +487,9 @@ func main() {
 		midWrite(c, cPeerClose, genx.KSyncNW)
 		blockedWrite(c, cPeerClose)
 		blockedWrite(c, cWriteTimeout)
-		t7(c)
+		if !s1() {
+			t7(c)
+		}
 	}
 	for i := 0; i < nRandom; i++ {
 		random(c, r, i)
